@@ -109,7 +109,9 @@ def gen(seed: int, tier: str) -> dict[str, Any]:
             act = rng.choice([{"a": "unreg_self"}, {"a": "unreg_other", "j": rng.randrange(6)},
                               {"a": "reg_new"}])
         return {"id": i, "gas": gas, "filters": filters, "outgoing": rng.random() < 0.5,
-                "raising": rng.random() < 0.2, "act": act}
+                "raising": rng.random() < 0.2, "act": act,
+                "exc": rng.choice(["RuntimeError", "ValueError", "KeyError", "XKNXException", "ConversionError",
+                                   "CouldNotParseTelegram", "CommunicationError", "DataSecureError", "TimeoutError"])}
 
     nreg = rng.choice([1, 2, 4, 6])
     ops: list[dict[str, Any]] = []
@@ -185,7 +187,10 @@ def run(plan: dict[str, Any]) -> dict[str, Any]:
                         if d is not None:
                             d["mutated"].append(nid)
             if reg["raising"]:
-                raise RuntimeError("scripted callback failure")
+                # any Exception class, in particular the library's own (which its consumer tasks handle specially)
+                import xknx.exceptions as _xe
+                cls = getattr(_xe, reg.get("exc", "RuntimeError"), None) or getattr(__import__("builtins"), reg.get("exc", "RuntimeError"))
+                raise cls("scripted callback failure")
 
         filters = None if reg["filters"] is None else [AddressFilter(f) for f in reg["filters"]]
         gas = None if reg["gas"] is None else [InternalGroupAddress(g) if isinstance(g, str) else GroupAddress(g)
